@@ -1493,7 +1493,7 @@ func call(n *node) {
 
 		// Init return values
 		for i, v := range rvalues {
-			if v != nil {
+			if v != nil && !goroutine {
 				nf.data[i] = v(f)
 				if namedRes && nf.data[i].Type() == def.types[i] {
 					// A named result is a variable of the callee which starts at its
@@ -1502,6 +1502,8 @@ func call(n *node) {
 					nf.data[i] = reflect.New(def.types[i]).Elem()
 				}
 			} else {
+				// The result is not used, or the function runs in a goroutine: the
+				// functions started by a go statement do not share their results.
 				nf.data[i] = reflect.New(def.types[i]).Elem()
 			}
 		}
